@@ -81,6 +81,14 @@ def _run_map(ctx, spec, rng):
     cls = ["cp", "cp", "hp", "gen"][int(rng.integers(0, 4))]
     cplx = bool(rng.integers(0, 2))
     a_ops, b_ops = _make_map(rng, din, dout, r, cls, cplx)
+    if spec[1] % 7 == 4 and len(a_ops) >= 1:
+        # an operator pair listed twice (each copy scaled by 1/sqrt 2): the same map, written with a repeated entry
+        same = b_ops is a_ops
+        t_ = int(rng.integers(0, len(a_ops)))
+        a_half, b_half = a_ops[t_] / np.sqrt(2), b_ops[t_] / np.sqrt(2)
+        a_ops = [k_ for i_, k_ in enumerate(a_ops) if i_ != t_] + [a_half, a_half]
+        b_ops = a_ops if same else [k_ for i_, k_ in enumerate(b_ops) if i_ != t_] + [b_half, b_half]
+        r = len(a_ops)
     mag = [1.0, 1.0, 1e-3, 1.0, 1e3, 1.0][spec[1] % 6]  # operators scaled by mag: the map has magnitude mag^2
     if mag != 1.0:
         same = b_ops is a_ops
@@ -259,7 +267,14 @@ def _run_rect(ctx, spec, rng):
     """(A, B) pairs with different left and right shapes acting on a rectangular X."""
     from toqito.channel_ops import apply_channel, kraus_to_choi
 
+    from toqito.channel_ops import choi_to_kraus
+    from toqito.helper import channel_dim
+
     ai, ao, bi, bo = (int(v) for v in rng.integers(1, 4, size=4))
+    omitted = spec[1] % 3 == 1
+    if omitted:  # left and right factors act on spaces of different size, each square: the dimensions can be inferred from a non-square Choi matrix
+        ai = ao = int(rng.integers(1, 4))
+        bi = bo = 1 + (ai + int(rng.integers(0, 2))) % 3
     r = int(rng.integers(1, 4))
     a_ops = [gen.rc(rng, ao, ai) for _ in range(r)]
     b_ops = [gen.rc(rng, bo, bi) for _ in range(r)]
@@ -275,6 +290,21 @@ def _run_rect(ctx, spec, rng):
         j_ref = ref.choi_of(a_ops, b_ops, ai, bi)
         ctx.check("O2:kraus_to_choi-rectangular", None, dev=_rel(j_lib, j_ref), tol=1e-9, sig=(ai != bi, ao != bo), nt=(ai, ao) != (bi, bo),
                   mech="kraus_to_choi:rectangular-pairs", detail={"shapes": [ai, ao, bi, bo]})
+    if omitted and ai != bi:
+        j_ref = ref.choi_of(a_ops, b_ops, ai, bi)
+        res = ctx.call(channel_dim, j_ref.copy())
+        if res is not FAILED:
+            ok = list(np.asarray(res[0]).reshape(-1)) == [ai, bi] and list(np.asarray(res[1]).reshape(-1)) == [ao, bo]
+            ctx.check("O7:channel_dim", ok, sig=("non-square-choi-default", ai, bi), nt=True, mech="channel_dim:non-square-choi-default", detail={"got": res[:2], "want": [[ai, bi], [ao, bo]]})
+        ks = ctx.call(choi_to_kraus, j_ref.copy())
+        if ks is not FAILED and len(ks):
+            ka, kb = ([p_[0] for p_ in ks], [p_[1] for p_ in ks]) if isinstance(ks[0], (list, tuple)) else (list(ks), list(ks))
+            try:
+                got = ref.apply_kraus(x, ka, kb)
+            except ValueError:
+                got = np.full_like(want, np.inf)
+            ctx.check("O3:choi_to_kraus-action", None, dev=_rel(got, want), tol=1e-6, sig=("non-square-choi-default", ai, bi), nt=True, mech="choi_to_kraus:action[non-square-choi,dim-omitted]",
+                      detail={"shapes": [ai, ao, bi, bo], "pairs": len(ka)})
 
 
 def _run_chdim(ctx, spec, rng):
